@@ -1,4 +1,87 @@
-import EpsModel.Header
+/-
+  C01 — Full-copy round trip returns the value that was serialized.
+
+  Property theorems only; helper lemmas are in `EpsModel/Lemmas`. `H` is the digest function of
+  the header (XXH3-64 in the crate): the theorems hold for every `H` with 64-bit values.
+-/
+import EpsModel.Lemmas.HeaderL
 namespace Eps.C01
-theorem placeholder : (1 : Nat) = 1 := rfl
+open Eps
+
+/-- Body level, any stream position, any trailing bytes: the full-copy reader returns exactly the
+    value written, leaves the trailing bytes alone and advances by the number of bytes written.
+    Every type of the well-formed universe (all built-in implementations, derived structs and
+    enums at any nesting), every well-typed value. -/
+theorem decFull_enc (T : Ty) (v : Val) (hT : T.wf = true) (hv : T.wt v = true) (pos : Nat) (rest : B) :
+    T.decFull .reader (T.enc v pos ++ rest) pos = .ok (v, rest, pos + (T.enc v pos).length) :=
+  Ty.framedFull .reader T hT v hv pos rest (AlignedAll_reader _)
+
+/-- `deserialize_full(serialize(v)) = Ok(v)` and the bytes consumed are the bytes written — for
+    every well-formed type, every well-typed value, every type name, every digest function. -/
+theorem deFull_ser (H : B → Nat) (hH : ∀ b, H b < 2^64) (T : Ty) (name : B) (v : Val)
+    (hT : T.wf = true) (hv : T.wt v = true)
+    (hname : validUtf8 name = true) (hlen : name.length < 2^63) :
+    T.deFull H (T.ser H name v) = .ok (v, (T.ser H name v).length) := by
+  unfold Ty.deFull Ty.ser Ty.header
+  simp only []
+  have h1 : T.typeHash H < 2^64 := hH _
+  have h2 : T.alignHash H < 2^64 := hH _
+  rw [checkHeader_wHeader _ _ name _ h1 h2 hname hlen]
+  simp only [Res.bind_ok]
+  have := decFull_enc T v hT hv (wHeader (T.typeHash H) (T.alignHash H) name).length []
+  simp only [List.append_nil] at this
+  rw [this]
+  simp
+
+/-- Trailing bytes after a serialized value are not looked at (streams can be concatenated). -/
+theorem deFull_ser_append (H : B → Nat) (hH : ∀ b, H b < 2^64) (T : Ty) (name : B) (v : Val) (rest : B)
+    (hT : T.wf = true) (hv : T.wt v = true)
+    (hname : validUtf8 name = true) (hlen : name.length < 2^63) :
+    T.deFull H (T.ser H name v ++ rest) = .ok (v, (T.ser H name v).length) := by
+  unfold Ty.deFull Ty.ser Ty.header
+  simp only [List.append_assoc]
+  have h1 : T.typeHash H < 2^64 := hH _
+  have h2 : T.alignHash H < 2^64 := hH _
+  rw [checkHeader_wHeader _ _ name _ h1 h2 hname hlen]
+  simp only [Res.bind_ok]
+  rw [decFull_enc T v hT hv (wHeader (T.typeHash H) (T.alignHash H) name).length rest]
+  simp
+
+/-- The one excluded class of values: an exhausted inclusive range is refused by the documented
+    assertion (a panic), not silently turned into another value. -/
+theorem decFull_exhausted (T : Ty) (a b : Val) (hT : T.wf = true) (ha : T.wt a = true) (hb : T.wt b = true)
+    (pos : Nat) (rest : B) :
+    (Ty.range .incl T).decFull .reader
+      (T.enc a pos ++ T.enc b (pos + (T.enc a pos).length) ++ [1] ++ rest) pos = .panic := by
+  simp only [Ty.decFull, List.append_assoc]
+  rw [decFull_enc T a hT ha pos]
+  simp only [Res.bind_ok]
+  rw [decFull_enc T b hT hb]
+  simp only [Res.bind_ok, List.cons_append, List.nil_append]
+  rw [readWord_byte]
+  simp
+
+/-! Non-vacuity: concrete types and values meet the hypotheses. -/
+
+example : (Ty.vec (.prim (.int .u32))).wf = true ∧
+    (Ty.vec (.prim (.int .u32))).wt (.seq [.bits 1, .bits 2, .bits 4294967295]) = true := by
+  simp [Ty.wf, Ty.wt, Ty.wtList, Prim.wt, Ty.isZC, IntK.size, Ty.sizeOf, Prim.size]
+
+example : (Ty.controlFlow (.prim (.int .u8)) .string).wf = true ∧
+    (Ty.controlFlow (.prim (.int .u8)) .string).wt (.variant 1 [.str [0x68, 0x69]]) = true := by
+  simp [Ty.wf, Ty.wt, validUtf8]
+
+example : (Ty.vec (.prim .unit)).wf = true ∧ (Ty.vec (.prim .unit)).wt (.seq [.unit, .unit]) = true := by
+  simp [Ty.wf, Ty.wt, Ty.wtList, Ty.isZC, Ty.sizeOf, Prim.size]
+
+/-- a deep-copy struct `S { a: Option<Vec<u16>>, b: [String; 1] }` whose first field is read ε-copy -/
+example :
+    let T := Ty.adt { name := [83], isEnum := false, zero := false, deepAttr := false, reprs := [],
+                      alignAttr := 1, consts := [] }
+              (.cons [83] (.cons [97] true (.option (.vec (.prim (.int .u16))))
+                          (.cons [98] false (.array .string 1) .nil)) .nil)
+    T.wf = true ∧ T.wt (.record [.variant 1 [.seq [.bits 7]], .seq [.str []]]) = true := by
+  simp [Ty.wf, Ty.wt, Ty.wtList, Fields.wt, Fields.wf, Variants.wf, Variants.length, Prim.wt, Ty.isZC,
+    Ty.isDeep, Ty.copyKind, IntK.size, Ty.sizeOf, Prim.size, validUtf8, pow2b, List.range, List.range.loop]
+
 end Eps.C01
